@@ -109,9 +109,15 @@ func (w *WindowCalculator) windowOffset(agentID identity.AgentID) time.Duration 
 }
 
 // cycleStart returns the start time of the cycle containing the given time.
+// Cycles are counted with floor division so that an instant before the epoch
+// belongs to the cycle that starts at or before it (Go's integer division
+// truncates toward zero, which would pick the following cycle).
 func (w *WindowCalculator) cycleStart(t time.Time) time.Time {
 	elapsed := t.Sub(w.cfg.Epoch)
 	cycleNum := elapsed / w.cfg.CycleLength
+	if elapsed%w.cfg.CycleLength < 0 {
+		cycleNum--
+	}
 	return w.cfg.Epoch.Add(cycleNum * w.cfg.CycleLength)
 }
 
